@@ -38,7 +38,7 @@ def main(argv):
     if c.replay:
         rc = subprocess.call([exe, "replay=" + c.replay])
         sys.exit(1 if rc == 1 else (0 if rc == 0 else 2))
-    fams = [("scoping", list(fm.scoping()) + list(fm.scoping2()) + list(fm.path_scope())), ("forms", list(fm.forms())),
+    fams = [("scoping", list(fm.scoping()) + list(fm.scoping2()) + list(fm.path_scope()) + list(fm.version_scope())), ("forms", list(fm.forms())),
             ("lexical", list(fm.lexical(3 if c.tier == "quick" else 4))),
             ("mutations", list(fm.mutations(fm.mutation_bases())))]
     os.makedirs(os.path.join(vbuild.BUILD, "scen"), exist_ok=True)
@@ -99,5 +99,6 @@ def main(argv):
     }
     c.finish(cov, assumptions=["reference evaluator lib/refmanifest.py written from doc/manual.asciidoc; name character classes "
                                "follow the lexer where the manual does not spell them out",
-                               "$^ is always rejected here because no generated manifest sets ninja_required_version"],
+                               "$^ needs ninja_required_version >= 1.14 declared earlier in the same file; whether the declaration of an "
+                               "including file counts is left open by the manual (both readings permitted); a sibling's never counts"],
              exhaustive=True)
